@@ -178,3 +178,69 @@ Proof.
   { pose proof (verify_read_length_exact rec) as P. rewrite Hlen in P. exact P. }
   rewrite Hv. destruct (t_elems tag_SenderSupplied) as [|e1 [|e2 [|e3 [|e4 [|e5 r']]]]]; cbn in Hne; try lia. reflexivity.
 Qed.
+
+(* ---------------- {8200} ---------------- *)
+(* canonical: a four-character length field, and the addenda within the length it declares *)
+Definition ua_canonical (v : tagval) : bool :=
+  match tv_elems v with
+  | [len; add] =>
+      let al := parse_num_field len in
+      marker_ok (tv_marker v) && (length len =? 4) && forallb okchar len &&
+      (0 <=? al)%Z && (al <? 100000)%Z && clean (Z.to_nat al) add
+  | _ => false
+  end.
+
+Theorem ua_round_trip v variable : ua_canonical v = true ->
+  t_parse tag_UnstructuredAddenda = [PGuard CLt 10; PTag false; PAddenda 0 1] ->
+  t_format tag_UnstructuredAddenda = [FTag; FAlpha 0 4; FAddenda 0 1] ->
+  length (t_elems tag_UnstructuredAddenda) = 2 ->
+  exists txt, format_tag tag_UnstructuredAddenda variable v = Some txt /\ parse_tag tag_UnstructuredAddenda txt = POk v.
+Proof.
+  intros Hc Hp Hf Hne. unfold ua_canonical in Hc.
+  destruct v as [mk els]. cbn [tv_elems tv_marker] in Hc.
+  destruct els as [|len [|add [|x r]]]; try discriminate Hc.
+  cbv zeta in Hc. set (al := parse_num_field len) in *.
+  apply andb_true_iff in Hc as [Hc Hadd]. apply andb_true_iff in Hc as [Hc Hhi]. apply andb_true_iff in Hc as [Hc Hlo].
+  apply andb_true_iff in Hc as [Hc Hlo0]. apply andb_true_iff in Hc as [Hmk Hl4]. apply Nat.eqb_eq in Hl4.
+  apply Z.leb_le in Hlo. apply Z.ltb_lt in Hhi.
+  destruct (clean_parts _ _ Hadd) as (La & Oa & Ta).
+  unfold marker_ok in Hmk. apply andb_true_iff in Hmk as [Hmk Hmd]. apply andb_true_iff in Hmk as [Hmk Hmt].
+  apply andb_true_iff in Hmk as [Hml Hma]. apply Nat.eqb_eq in Hml.
+  assert (Hmasc : ascii_str mk = true).
+  { unfold ascii_str. rewrite forallb_forall in *. intros b Hb. specialize (Hma b Hb). unfold is_ascii. exact Hma. }
+  unfold format_tag, parse_tag. rewrite Hf, Hp. cbn [run_format app elem_val tv_elems tv_marker nth]. fold al.
+  change (nn 4) with 4.
+  unfold alpha_field at 1. rewrite (format_alpha_fixed len 4) by (try lia; unfold small; cbn; lia).
+  assert (Hpl : pad 4 len = len) by (unfold pad; rewrite Hl4; cbn; apply app_nil_r). rewrite Hpl.
+  set (n := Z.to_nat al) in *.
+  assert (Hbody : (if (al <? 0)%Z || negb ((0 <? al)%Z && (al <? Z.of_N max_buffer_growth)%Z) then [] else alpha_field add n) = pad n add).
+  { destruct (al <? 0)%Z eqn:E0; [apply Z.ltb_lt in E0; lia|]. cbn [orb].
+    destruct (0 <? al)%Z eqn:E1.
+    - assert (E2 : (al <? Z.of_N max_buffer_growth)%Z = true) by (apply Z.ltb_lt; unfold max_buffer_growth; lia).
+      rewrite E2. cbn [andb negb]. unfold alpha_field. apply format_alpha_fixed; [exact La|unfold small, n; lia].
+    - cbn [andb negb]. apply Z.ltb_ge in E1. assert (al = 0%Z) by lia. unfold n in *. rewrite H in *. cbn in La.
+      destruct add; [reflexivity|cbn in La; lia]. }
+  rewrite Hbody.
+  set (B := pad n add). assert (HBl : length B = n) by (apply pad_length; exact La).
+  exists (mk ++ len ++ B). split; [f_equal; rewrite <- !app_assoc; reflexivity|].
+  remember (mk ++ len ++ B) as rec eqn:Erec.
+  assert (Hlen : length rec = 10 + n) by (rewrite Erec, !app_length, Hml, Hl4, HBl; lia).
+  assert (Hasc : ascii_str rec = true).
+  { rewrite Erec, !ascii_app, Hmasc, (okchars_ascii len Hlo0). unfold B. rewrite (ascii_pad n add (okchars_ascii add Oa)). reflexivity. }
+  cbn [run_parse]. change (nn 10) with 10.
+  rewrite (rune_count_ascii rec Hasc), Hlen.
+  replace (10 + n <? 10) with false by (symmetry; apply Nat.ltb_ge; lia).
+  assert (S1 : slice rec 0 6 = Some mk).
+  { rewrite Erec. pose proof (slice_mid [] mk (len ++ B)) as P. cbn [app length] in P. rewrite Hml in P. exact P. }
+  rewrite S1.
+  assert (S2 : slice rec 6 10 = Some len).
+  { rewrite Erec. pose proof (slice_mid mk len B) as P. rewrite Hml, Hl4 in P. exact P. }
+  rewrite S2. fold al.
+  assert (Hz : Z.eqb (Z.of_nat (10 + n)) (10 + al) = true) by (apply Z.eqb_eq; unfold n; lia).
+  rewrite Hz. cbn [negb].
+  assert (S3 : slice rec 10 (Z.to_nat (10 + al)) = Some B).
+  { rewrite Erec. pose proof (slice_mid (mk ++ len) B []) as P. rewrite app_nil_r, app_length, Hml, Hl4, HBl, <- app_assoc in P.
+    replace (Z.to_nat (10 + al)) with (6 + 4 + n) by (unfold n; lia). exact P. }
+  rewrite S3. replace (trim_space B) with add by (symmetry; apply (trim_img false n add Hadd)).
+  destruct (t_elems tag_UnstructuredAddenda) as [|e1 [|e2 [|e3 r']]]; cbn in Hne; try lia. reflexivity.
+Qed.
